@@ -392,7 +392,8 @@ def evaluate(ctx, cases, record=True):
     for c in cases:
         ops, steps = model_ops(c)
         try:
-            obs = run_impl(c)
+            with ctx.guard(c, what='WebSocket codec (reads of this case)'):
+                obs = run_impl(c)
         except Exception as e:  # harness-level failure of the drive itself
             obs = [{'msgs': [], 'writes': [], 'c': 0, 'x': 0, 'errs': [type(e).__name__ + ':drive'], 'keys': []}
                    for _ in steps]
